@@ -8,7 +8,7 @@ VERIF = os.path.dirname(os.path.dirname(os.path.abspath(__file__)))
 VERUS_UNITS = {
     "decoder": {
         "path": "units/verus/decoder.vx",
-        "props": ["C01", "C02", "C04", "C05", "C11", "C12", "C20"],
+        "props": ["C01", "C02", "C04", "C05", "C06", "C11", "C12", "C20"],
         "configs": {"quick": [("std", ["std", "alloc", "half"])],
                     "thorough": [("std", ["std", "alloc", "half"]), ("alloc", ["alloc", "half"]), ("none", ["half"])]},
         # only C20 needs every configuration; other properties use the first one
